@@ -13,6 +13,24 @@ for p in "$@"; do
   v=$(printf '%s\n' "$out" | grep -E "^VIOLATION" | head -3 | tr '\n' ' ')
   echo "property=$p exit=$rc $v" | tee -a "$dir/result.txt"
   printf '%s\n' "$out" | tail -2 >> "$dir/result.txt"
+  # the first concrete failing input joins the corpus of past failures that every later run of this
+  # property replays first (so that a reshuffled generator cannot lose it)
+  python3 - "$p" "$name" <<'PY'
+import json, os, sys
+p, name = sys.argv[1], sys.argv[2]
+d = f"/verif/replays/{p}"
+if os.path.isdir(d):
+    for fn in sorted(os.listdir(d), key=lambda x: int(x.split('.')[0]) if x.split('.')[0].isdigit() else 0):
+        try:
+            r = json.load(open(os.path.join(d, fn)))
+        except Exception:
+            continue
+        if r.get("kind") == "oracle" and r.get("only") and r.get("suite") and not str(r.get("case", "")).startswith("corpus/"):
+            os.makedirs(f"/verif/corpus/{p}", exist_ok=True)
+            json.dump({"suite": r["suite"], "only": r["only"], "key": r.get("key"), "from": f"seeded/{name}"},
+                      open(f"/verif/corpus/{p}/{name}.json", "w"), indent=1)
+            break
+PY
 done
 git -C /repo checkout -- .
 # the generated tables were regenerated from the patched tree: regenerate them from the restored one
